@@ -55,11 +55,20 @@ class Ctx:
         out = Out()
         n = 0
         for (st, t, node) in out0.ret:
-            if t[0] != 'closure' or t[1] != r.WRAP.qualname:
+            part = None
+            if t[0] == 'call' and t[1] in ('functools.partial', 'partial') and t[2] and t[2][0][0] == 'attr' \
+                    and t[2][0][2] == r.WRAP.name:
+                # the factory returns functools.partial(self.<wrapper>, job): the task body is that method
+                part = (t[2][0][1], tuple(t[2][1:]))
+            elif t[0] != 'closure' or t[1] != r.WRAP.qualname:
                 continue
             n += 1
             o = Out()
-            for (y, val) in ip.inline(r.WRAP, None, (), (), t, st, ip.root, o, r.WRAP.node):
+            if part is not None:
+                results = ip.inline(r.WRAP, part[0], part[1], (), None, st, ip.root, o, r.WRAP.node)
+            else:
+                results = ip.inline(r.WRAP, None, (), (), t, st, ip.root, o, r.WRAP.node)
+            for (y, val) in results:
                 y = an.on_return(ip, r.WRAP.node, val, y, ip.root)
                 if y is not None:
                     out.ret.append((y, val, r.WRAP.node))
